@@ -625,12 +625,14 @@ def _wire(ctx, asgi):
                                         'access-control-allow-origin': hd2.get('access-control-allow-origin')}
                     if ce and why is None:
                         n_c2 = sum(1 for e in calls if e[0] == 'C')
-                        # dependent mode skips the CORS component only when a component of the constructor's list rejected the request
-                        # (those are the ones registered before it); components added later cannot keep it from running
+                        # dependent mode may skip the CORS component when a component of the constructor's list rejected the request
+                        # (whether it does is a matter of stack order: carried by the correspondence, not demanded by the statement);
+                        # components added later can never keep it from running
                         before = [int(k[1:]) for k in ([a_enc[1:]] if a_enc[0] == 's' else a_enc[1:].split(',')) if k.startswith('o')]
-                        expect = 0 if (not indep and fail in before) else 1
+                        may_skip = not indep and fail in before
+                        expect = n_c2 if (may_skip and n_c2 == 0) else 1
                         if n_c1 != 1 or n_c2 != expect:
-                            why = f'cors_enable app: the CORS policy ran {n_c1} time(s) in a clean request and {n_c2} time(s) in the planned one, expected 1 and {expect}'
+                            why = f'cors_enable app: the CORS policy ran {n_c1} time(s) in a clean request and {n_c2} time(s) in the planned one, expected exactly 1' + (' (or 0: dependent mode behind a rejecting process_request)' if may_skip else '')
                         elif expect and pf and calls and [e for e in calls if e[0] == 'C'][0][2] != (st2 < 400):
                             why = f'cors_enable app: preflight patching ran = {[e for e in calls if e[0] == "C"][0][2]} but the exchange ended with status {st2}'
                 except Hang:
@@ -642,7 +644,7 @@ def _wire(ctx, asgi):
                 finally:
                     BUILTIN[0] = False
             sess.op(line, got)
-            ctx.oracle('cors_enable wiring: a CORSMiddleware next to cors_enable is refused (constructor and add_middleware), otherwise exactly one CORS policy runs per request - once, with req_succeeded = the exchange succeeded - for routed / sink / static / unrouted / failed requests; skipped only in dependent mode behind a rejecting process_request',
+            ctx.oracle('cors_enable wiring: a CORSMiddleware next to cors_enable is refused (constructor and add_middleware), otherwise exactly one CORS policy runs per request - once, with req_succeeded = the exchange succeeded - for routed / sink / static / unrouted / failed requests (dependent mode may skip it behind a rejecting process_request)',
                        why is None, why, case)
             ctx.seen(('wire', stack, line), app is not None or (ce and user_in_arg))
             ctx.count(f'wire_{stack}_' + ('refused' if app is None else f'ce={int(ce)}_{kind}_{resp_act if kind not in ("nomethod", "nothing") else "-"}'))
